@@ -214,6 +214,18 @@ where
 
 fn response_history(r: &mut Rng, real: &Response, frames: &[DFrame], error: &Option<AError>, cx: &mut Ctx<'_>) {
     let items = response_items(frames, error);
+    // printing a response, its frames and its error (an application's log line) returns
+    let _ = format!("{:?} {:#?}", real, real);
+    for f in real.frames() {
+        match f {
+            Ok(f) => {
+                let _ = format!("{:?} {:#?}", f, f);
+            }
+            Err(e) => {
+                let _ = format!("{:?} {:#?}", e, e);
+            }
+        }
+    }
     cx.check("is_error()".into(), real.is_error(), error.is_some());
     cx.check("is_success()".into(), real.is_success(), error.is_none());
     cx.check("successful_frames()".into(), real.successful_frames(), frames.len());
